@@ -8,7 +8,8 @@ EXPLANATION = (
     "dominated by the false edge of `opt.check`; (R-EXIT) EXIT_CODE is written only by the Diff arm (1) and by the "
     "logger under Level::Error (2), read after pool.join(), combined with panic_count()>0 -> 2 and handed to the "
     "single process::exit; (R-ATOMIC) no write can downgrade a 2; (R-ERRSTATUS) every path of the output thread that handles an Err result raises the status to 2. (R-VERIFYFLAG) OutputVerification::Full is chosen exactly under opt.verify - no other option takes part. (R-NODIFF) the functions that produce an optional diff take no decision through a floating-point comparison (a similarity ratio is not an equality test). Decides these structural clauses; does not decide "
-    "that status 0 coincides with 'every file equals its formatted form' for the diff formats beyond that (depends on `similar`).")
+    "that status 0 coincides with 'every file equals its formatted form' for the diff formats beyond that (depends on `similar`)."
+    "Later rounds: (R-CHECKVERDICT) in check mode Complete only on create_diff's None, Diff only on its Some; (R-ERRSTATUS) every Err edge of the output thread raises the status to 2.")
 ASSUMPTIONS = ["std/ignore/threadpool/env_logger behave as documented",
                "FS_MUTATORS in r_cli.py enumerates the std APIs that can mutate the file system",
                "rustc MIR and Instance::try_resolve are trusted"]
